@@ -285,7 +285,15 @@ def sup_member(desc, tier, seed):
             sc = sup.add_selection_choice(f'sup_{c.cid}', sn, list(so.values()) + [s_inactive])
             mapping = {b.node[o]: so[o] for o in opts}
             conditional = c.origin not in perm_nodes
-            if conditional and not drop_none:
+            # a `None` entry is also given when the library itself counts the choice as possibly inactive (it may
+            # still offer an option that the reference excludes, see the known finding on self-conflicting options):
+            # a surplus `None` entry never makes a mapping incomplete
+            lib_conditional = False
+            try:
+                lib_conditional = bool(src.has_conditional_existence(b.choice[c.cid]))
+            except Exception:  # noqa
+                pass
+            if (conditional and not drop_none) or (lib_conditional and not conditional):
                 mapping[None] = s_inactive
             elif not conditional:
                 pass
